@@ -40,6 +40,11 @@ def gen_batch(rng, B, shape, cls, stream):
         cores = [core.rnd_entries(rng, c.shape, stream) for c in first.cores]
         Us = [None if U is None else core.rnd_entries(rng, U.shape, stream) for U in first.Us]
         elems.append(PT(cores, Us))
+    # special elements: an exactly zero element (a padding sample) in the first or in a random slot
+    if B >= 2 and rng.random() < 0.2:
+        b = 0 if rng.random() < 0.5 else rng.randrange(B)
+        e = elems[b]
+        elems[b] = PT([np.zeros_like(e.cores[0])] + list(e.cores[1:]), e.Us)
     return elems
 
 
